@@ -1,0 +1,566 @@
+//go:build verif
+
+package verifdrv
+
+// Shared pieces of the C12 differential drivers (lib/store/redis, lib/store/kv): argument access,
+// canonical encoding of replies, the raw go-redis side of every wrapper method, keyspace dumps.
+
+import (
+	"context"
+	"encoding/json"
+	"fmt"
+	"reflect"
+	"sort"
+	"strconv"
+	"strings"
+	"time"
+
+	"github.com/alicebob/miniredis/v2"
+	red "github.com/go-redis/redis/v8"
+	"github.com/gotid/god/lib/breaker"
+)
+
+// C12Args are the JSON arguments of one operation.
+type C12Args []json.RawMessage
+
+func (a C12Args) get(i int, v any) {
+	if i >= len(a) {
+		panic(fmt.Sprintf("missing argument %d", i))
+	}
+	if err := json.Unmarshal(a[i], v); err != nil {
+		panic(fmt.Sprintf("argument %d: %v", i, err))
+	}
+}
+func (a C12Args) S(i int) string    { var v string; a.get(i, &v); return v }
+func (a C12Args) I(i int) int64     { var v int64; a.get(i, &v); return v }
+func (a C12Args) N(i int) int       { return int(a.I(i)) }
+func (a C12Args) U(i int) uint64    { return uint64(a.I(i)) }
+func (a C12Args) F(i int) float64   { var v float64; a.get(i, &v); return v }
+func (a C12Args) SS(i int) []string { var v []string; a.get(i, &v); return v }
+func (a C12Args) Anys(i int) []any {
+	var out []any
+	for _, s := range a.SS(i) {
+		out = append(out, s)
+	}
+	return out
+}
+func (a C12Args) Pairs(i int) [][2]string {
+	var v [][2]string
+	a.get(i, &v)
+	return v
+}
+func (a C12Args) Map(i int) map[string]string {
+	m := map[string]string{}
+	for _, p := range a.Pairs(i) {
+		m[p[0]] = p[1]
+	}
+	return m
+}
+
+// C12Scored is a list of [member, score].
+type C12Scored struct {
+	M string
+	S float64
+}
+
+func (a C12Args) Scored(i int) []C12Scored {
+	var raw [][]json.RawMessage
+	a.get(i, &raw)
+	var out []C12Scored
+	for _, r := range raw {
+		var m string
+		var s float64
+		json.Unmarshal(r[0], &m)
+		json.Unmarshal(r[1], &s)
+		out = append(out, C12Scored{m, s})
+	}
+	return out
+}
+
+// C12Geo is a list of [name, lon, lat].
+func (a C12Args) Geo(i int) []*red.GeoLocation {
+	var raw [][]json.RawMessage
+	a.get(i, &raw)
+	var out []*red.GeoLocation
+	for _, r := range raw {
+		g := &red.GeoLocation{}
+		json.Unmarshal(r[0], &g.Name)
+		json.Unmarshal(r[1], &g.Longitude)
+		json.Unmarshal(r[2], &g.Latitude)
+		out = append(out, g)
+	}
+	return out
+}
+
+// C12Err maps an error to its class.
+func C12Err(err error) string {
+	switch err {
+	case nil:
+		return "nil"
+	case red.Nil:
+		return "Nil"
+	case context.Canceled:
+		return "Canceled"
+	case breaker.ErrServiceUnavailable:
+		return "Unavailable"
+	}
+	msg := err.Error()
+	if strings.Contains(msg, "connection refused") || strings.Contains(msg, "EOF") || strings.Contains(msg, "closed") ||
+		strings.Contains(msg, "i/o timeout") || strings.Contains(msg, "broken pipe") || strings.Contains(msg, "reset by peer") {
+		return "Other:conn"
+	}
+	if len(msg) > 80 {
+		msg = msg[:80]
+	}
+	return "Other:" + msg
+}
+
+// C12Val encodes a reply value canonically (typed JSON).
+func C12Val(x any) any {
+	if x == nil {
+		return map[string]any{"nil": 1}
+	}
+	switch v := x.(type) {
+	case C12Zero:
+		return map[string]any{"zero": 1}
+	case time.Duration:
+		return map[string]any{"d": int64(v)}
+	}
+	rv := reflect.ValueOf(x)
+	switch rv.Kind() {
+	case reflect.Int, reflect.Int64, reflect.Int32:
+		return map[string]any{"z": rv.Int()}
+	case reflect.Uint64, reflect.Uint32, reflect.Uint:
+		return map[string]any{"z": int64(rv.Uint())}
+	case reflect.Bool:
+		return map[string]any{"b": rv.Bool()}
+	case reflect.String:
+		return map[string]any{"s": rv.String()}
+	case reflect.Float64:
+		return map[string]any{"q": strconv.FormatFloat(rv.Float(), 'f', -1, 64)}
+	case reflect.Ptr, reflect.Interface:
+		if rv.IsNil() {
+			return map[string]any{"nil": 1}
+		}
+		return C12Val(rv.Elem().Interface())
+	case reflect.Slice:
+		out := []any{}
+		for i := 0; i < rv.Len(); i++ {
+			out = append(out, C12Val(rv.Index(i).Interface()))
+		}
+		return map[string]any{"l": out}
+	case reflect.Map:
+		keys := []string{}
+		for _, k := range rv.MapKeys() {
+			keys = append(keys, k.String())
+		}
+		sort.Strings(keys)
+		out := []any{}
+		for _, k := range keys {
+			out = append(out, map[string]any{"l": []any{C12Val(k), C12Val(rv.MapIndex(reflect.ValueOf(k)).Interface())}})
+		}
+		return map[string]any{"l": out}
+	case reflect.Struct:
+		fs := []any{}
+		for i := 0; i < rv.NumField(); i++ {
+			if rv.Type().Field(i).PkgPath != "" {
+				continue
+			}
+			fs = append(fs, []any{rv.Type().Field(i).Name, C12Val(rv.Field(i).Interface())})
+		}
+		return map[string]any{"r": rv.Type().Name(), "f": fs}
+	}
+	return map[string]any{"s": fmt.Sprintf("?%T", x)}
+}
+
+// C12Zero stands for "no value returned" (methods that return only an error).
+type C12Zero struct{}
+
+// C12Lua are the scripts the generator may name by index.
+var C12Lua = []string{
+	`return redis.call('GET', KEYS[1])`,
+	`redis.call('SET', KEYS[1], ARGV[1]); return ARGV[1]`,
+	`return redis.call('INCRBY', KEYS[1], ARGV[1])`,
+	`return {1, 2, 'x', KEYS[1]}`,
+	`return redis.call('HGET', KEYS[1], ARGV[1])`,
+	`if redis.call('EXISTS', KEYS[1]) == 1 then return redis.call('DEL', KEYS[1]) else return 0 end`,
+}
+
+// C12PipeFn builds the function handed to Pipelined: queues SET k v / INCR k / GET k / HSET k f v
+// and leaves the queued commands in *cmds.
+func C12PipeFn(script [][]string, cmds *[]red.Cmder) func(red.Pipeliner) error {
+	return func(p red.Pipeliner) error {
+		ctx := context.Background()
+		for _, s := range script {
+			switch s[0] {
+			case "set":
+				*cmds = append(*cmds, p.Set(ctx, s[1], s[2], 0))
+			case "incr":
+				*cmds = append(*cmds, p.Incr(ctx, s[1]))
+			case "get":
+				*cmds = append(*cmds, p.Get(ctx, s[1]))
+			case "hset":
+				*cmds = append(*cmds, p.HSet(ctx, s[1], s[2], s[3]))
+			case "lpush":
+				*cmds = append(*cmds, p.LPush(ctx, s[1], s[2]))
+			}
+		}
+		return nil
+	}
+}
+
+// C12PipeResults renders the results of the queued commands.
+func C12PipeResults(cmds []red.Cmder) string {
+	var out []string
+	for _, c := range cmds {
+		switch v := c.(type) {
+		case *red.StatusCmd:
+			out = append(out, v.Val()+"/"+C12Err(v.Err()))
+		case *red.IntCmd:
+			out = append(out, strconv.FormatInt(v.Val(), 10)+"/"+C12Err(v.Err()))
+		case *red.StringCmd:
+			out = append(out, v.Val()+"/"+C12Err(v.Err()))
+		default:
+			out = append(out, fmt.Sprintf("%T/%s", c, C12Err(c.Err())))
+		}
+	}
+	return strings.Join(out, ",")
+}
+
+func c12Script(a C12Args, i int) [][]string {
+	var v [][]string
+	a.get(i, &v)
+	return v
+}
+
+// C12PipeScript exposes the pipeline script argument.
+func C12PipeScript(a C12Args, i int) [][]string { return c12Script(a, i) }
+
+func itoa(n int64) string { return strconv.FormatInt(n, 10) }
+
+// C12Raw runs the go-redis command that the DOCUMENTED correspondence assigns to wrapper method m
+// (named by its context form), with the documented argument placement.  ok=false: unknown method.
+// extra: side observation (pipeline results).
+func C12Raw(r red.Cmdable, ctx context.Context, m string, a C12Args) (val any, err error, extra string, ok bool) {
+	ok = true
+	secs := func(i int) time.Duration { return time.Duration(a.N(i)) * time.Second }
+	zs := func(i int) []*red.Z {
+		var out []*red.Z
+		for _, p := range a.Scored(i) {
+			out = append(out, &red.Z{Score: float64(int64(p.S)), Member: p.M})
+		}
+		return out
+	}
+	switch m {
+	case "BitCountCtx":
+		val, err = r.BitCount(ctx, a.S(0), &red.BitCount{Start: a.I(1), End: a.I(2)}).Result()
+	case "BitOpAndCtx":
+		val, err = r.BitOpAnd(ctx, a.S(0), a.SS(1)...).Result()
+	case "BitOpOrCtx":
+		val, err = r.BitOpOr(ctx, a.S(0), a.SS(1)...).Result()
+	case "BitOpXorCtx":
+		val, err = r.BitOpXor(ctx, a.S(0), a.SS(1)...).Result()
+	case "BitOpNotCtx":
+		val, err = r.BitOpNot(ctx, a.S(0), a.S(1)).Result()
+	case "BitPosCtx":
+		val, err = r.BitPos(ctx, a.S(0), a.I(1), a.I(2), a.I(3)).Result()
+	case "BLPopCtx", "BLPopExCtx":
+		val, err = r.BLPop(ctx, 5*time.Second, a.S(0)).Result()
+	case "BLPopWithTimeoutCtx":
+		val, err = r.BLPop(ctx, time.Duration(a.I(0)), a.S(1)).Result()
+	case "DecrCtx":
+		val, err = r.Decr(ctx, a.S(0)).Result()
+	case "DecrByCtx":
+		val, err = r.DecrBy(ctx, a.S(0), a.I(1)).Result()
+	case "DelCtx":
+		val, err = r.Del(ctx, a.SS(0)...).Result()
+	case "EvalCtx":
+		val, err = r.Eval(ctx, C12Lua[a.N(0)], a.SS(1), a.Anys(2)...).Result()
+	case "EvalShaCtx":
+		val, err = r.EvalSha(ctx, a.S(0), a.SS(1), a.Anys(2)...).Result()
+	case "ExistsCtx":
+		val, err = r.Exists(ctx, a.S(0)).Result()
+	case "ExpireCtx":
+		val, err = r.Expire(ctx, a.S(0), secs(1)).Result()
+	case "ExpireAtCtx":
+		val, err = r.ExpireAt(ctx, a.S(0), time.Unix(a.I(1), 0)).Result()
+	case "GeoAddCtx":
+		val, err = r.GeoAdd(ctx, a.S(0), a.Geo(1)...).Result()
+	case "GeoDistCtx":
+		val, err = r.GeoDist(ctx, a.S(0), a.S(1), a.S(2), a.S(3)).Result()
+	case "GeoPosCtx":
+		val, err = r.GeoPos(ctx, a.S(0), a.SS(1)...).Result()
+	case "GeoRadiusCtx":
+		val, err = r.GeoRadius(ctx, a.S(0), a.F(1), a.F(2), C12GeoQuery(a, 3)).Result()
+	case "GeoRadiusByMemberCtx":
+		val, err = r.GeoRadiusByMember(ctx, a.S(0), a.S(1), C12GeoQuery(a, 2)).Result()
+	case "GetCtx":
+		val, err = r.Get(ctx, a.S(0)).Result()
+	case "GetBitCtx":
+		val, err = r.GetBit(ctx, a.S(0), a.I(1)).Result()
+	case "GetSetCtx":
+		val, err = r.GetSet(ctx, a.S(0), a.S(1)).Result()
+	case "HDelCtx":
+		val, err = r.HDel(ctx, a.S(0), a.SS(1)...).Result()
+	case "HExistsCtx":
+		val, err = r.HExists(ctx, a.S(0), a.S(1)).Result()
+	case "HGetCtx":
+		val, err = r.HGet(ctx, a.S(0), a.S(1)).Result()
+	case "HGetAllCtx":
+		val, err = r.HGetAll(ctx, a.S(0)).Result()
+	case "HIncrByCtx":
+		val, err = r.HIncrBy(ctx, a.S(0), a.S(1), a.I(2)).Result()
+	case "HKeysCtx":
+		val, err = r.HKeys(ctx, a.S(0)).Result()
+	case "HLenCtx":
+		val, err = r.HLen(ctx, a.S(0)).Result()
+	case "HMGetCtx":
+		val, err = r.HMGet(ctx, a.S(0), a.SS(1)...).Result()
+	case "HSetCtx":
+		val, err = r.HSet(ctx, a.S(0), a.S(1), a.S(2)).Result()
+	case "HSetNXCtx":
+		val, err = r.HSetNX(ctx, a.S(0), a.S(1), a.S(2)).Result()
+	case "HMSetCtx":
+		vals := map[string]any{}
+		for k, v := range a.Map(1) {
+			vals[k] = v
+		}
+		val, err = r.HMSet(ctx, a.S(0), vals).Result()
+	case "HScanCtx":
+		var ks []string
+		var cur uint64
+		ks, cur, err = r.HScan(ctx, a.S(0), a.U(1), a.S(2), a.I(3)).Result()
+		val = []any{ks, cur}
+	case "HValsCtx":
+		val, err = r.HVals(ctx, a.S(0)).Result()
+	case "IncrCtx":
+		val, err = r.Incr(ctx, a.S(0)).Result()
+	case "IncrByCtx":
+		val, err = r.IncrBy(ctx, a.S(0), a.I(1)).Result()
+	case "KeysCtx":
+		val, err = r.Keys(ctx, a.S(0)).Result()
+	case "LLenCtx":
+		val, err = r.LLen(ctx, a.S(0)).Result()
+	case "LIndexCtx":
+		val, err = r.LIndex(ctx, a.S(0), a.I(1)).Result()
+	case "LPopCtx":
+		val, err = r.LPop(ctx, a.S(0)).Result()
+	case "LPushCtx":
+		val, err = r.LPush(ctx, a.S(0), a.Anys(1)...).Result()
+	case "LRangeCtx":
+		val, err = r.LRange(ctx, a.S(0), a.I(1), a.I(2)).Result()
+	case "LRemCtx":
+		val, err = r.LRem(ctx, a.S(0), a.I(1), a.S(2)).Result()
+	case "LTrimCtx":
+		val, err = r.LTrim(ctx, a.S(0), a.I(1), a.I(2)).Result()
+	case "MGetCtx":
+		val, err = r.MGet(ctx, a.SS(0)...).Result()
+	case "PersistCtx":
+		val, err = r.Persist(ctx, a.S(0)).Result()
+	case "PFAddCtx":
+		val, err = r.PFAdd(ctx, a.S(0), a.Anys(1)...).Result()
+	case "PFCountCtx":
+		val, err = r.PFCount(ctx, a.S(0)).Result()
+	case "PFMergeCtx":
+		val, err = r.PFMerge(ctx, a.S(0), a.SS(1)...).Result()
+	case "PingCtx":
+		val, err = r.Ping(ctx).Result()
+	case "PipelinedCtx":
+		var cmds []red.Cmder
+		_, err = r.Pipelined(ctx, C12PipeFn(c12Script(a, 0), &cmds))
+		val = C12Zero{}
+		extra = C12PipeResults(cmds)
+	case "RPopCtx":
+		val, err = r.RPop(ctx, a.S(0)).Result()
+	case "RPushCtx":
+		val, err = r.RPush(ctx, a.S(0), a.Anys(1)...).Result()
+	case "SAddCtx":
+		val, err = r.SAdd(ctx, a.S(0), a.Anys(1)...).Result()
+	case "ScanCtx":
+		var ks []string
+		var cur uint64
+		ks, cur, err = r.Scan(ctx, a.U(0), a.S(1), a.I(2)).Result()
+		val = []any{ks, cur}
+	case "SetBitCtx":
+		val, err = r.SetBit(ctx, a.S(0), a.I(1), a.N(2)).Result()
+	case "SScanCtx":
+		var ks []string
+		var cur uint64
+		ks, cur, err = r.SScan(ctx, a.S(0), a.U(1), a.S(2), a.I(3)).Result()
+		val = []any{ks, cur}
+	case "SCardCtx":
+		val, err = r.SCard(ctx, a.S(0)).Result()
+	case "ScriptLoadCtx":
+		val, err = r.ScriptLoad(ctx, C12Lua[a.N(0)]).Result()
+	case "SetCtx":
+		val, err = r.Set(ctx, a.S(0), a.S(1), 0).Result()
+	case "SetExCtx":
+		val, err = r.Set(ctx, a.S(0), a.S(1), secs(2)).Result()
+	case "SetNXCtx":
+		val, err = r.SetNX(ctx, a.S(0), a.S(1), 0).Result()
+	case "SetNXExCtx":
+		val, err = r.SetNX(ctx, a.S(0), a.S(1), secs(2)).Result()
+	case "SIsMemberCtx":
+		val, err = r.SIsMember(ctx, a.S(0), a.S(1)).Result()
+	case "SMembersCtx":
+		val, err = r.SMembers(ctx, a.S(0)).Result()
+	case "SPopCtx":
+		val, err = r.SPop(ctx, a.S(0)).Result()
+	case "SRandMemberCtx":
+		val, err = r.SRandMemberN(ctx, a.S(0), a.I(1)).Result()
+	case "SRemCtx":
+		val, err = r.SRem(ctx, a.S(0), a.Anys(1)...).Result()
+	case "SUnionCtx":
+		val, err = r.SUnion(ctx, a.SS(0)...).Result()
+	case "SUnionStoreCtx":
+		val, err = r.SUnionStore(ctx, a.S(0), a.SS(1)...).Result()
+	case "SDiffCtx":
+		val, err = r.SDiff(ctx, a.SS(0)...).Result()
+	case "SDiffStoreCtx":
+		val, err = r.SDiffStore(ctx, a.S(0), a.SS(1)...).Result()
+	case "SInterCtx":
+		val, err = r.SInter(ctx, a.SS(0)...).Result()
+	case "SInterStoreCtx":
+		val, err = r.SInterStore(ctx, a.S(0), a.SS(1)...).Result()
+	case "TTLCtx":
+		val, err = r.TTL(ctx, a.S(0)).Result()
+	case "ZAddCtx":
+		val, err = r.ZAdd(ctx, a.S(0), &red.Z{Score: float64(a.I(1)), Member: a.S(2)}).Result()
+	case "ZAddFloatCtx":
+		val, err = r.ZAdd(ctx, a.S(0), &red.Z{Score: a.F(1), Member: a.S(2)}).Result()
+	case "ZAddsCtx":
+		val, err = r.ZAdd(ctx, a.S(0), zs(1)...).Result()
+	case "ZCardCtx":
+		val, err = r.ZCard(ctx, a.S(0)).Result()
+	case "ZCountCtx":
+		val, err = r.ZCount(ctx, a.S(0), itoa(a.I(1)), itoa(a.I(2))).Result()
+	case "ZIncrByCtx":
+		val, err = r.ZIncrBy(ctx, a.S(0), float64(a.I(1)), a.S(2)).Result()
+	case "ZScoreCtx":
+		val, err = r.ZScore(ctx, a.S(0), a.S(1)).Result()
+	case "ZRankCtx":
+		val, err = r.ZRank(ctx, a.S(0), a.S(1)).Result()
+	case "ZRemCtx":
+		val, err = r.ZRem(ctx, a.S(0), a.Anys(1)...).Result()
+	case "ZRemRangeByScoreCtx":
+		val, err = r.ZRemRangeByScore(ctx, a.S(0), itoa(a.I(1)), itoa(a.I(2))).Result()
+	case "ZRemRangeByRankCtx":
+		val, err = r.ZRemRangeByRank(ctx, a.S(0), a.I(1), a.I(2)).Result()
+	case "ZRangeCtx":
+		val, err = r.ZRange(ctx, a.S(0), a.I(1), a.I(2)).Result()
+	case "ZRangeWithScoresCtx":
+		val, err = r.ZRangeWithScores(ctx, a.S(0), a.I(1), a.I(2)).Result()
+	case "ZRevRangeWithScoresCtx":
+		val, err = r.ZRevRangeWithScores(ctx, a.S(0), a.I(1), a.I(2)).Result()
+	case "ZRangeByScoreWithScoresCtx":
+		val, err = r.ZRangeByScoreWithScores(ctx, a.S(0), &red.ZRangeBy{Min: itoa(a.I(1)), Max: itoa(a.I(2))}).Result()
+	case "ZRangeByScoreWithScoresAndLimitCtx":
+		val, err = r.ZRangeByScoreWithScores(ctx, a.S(0), &red.ZRangeBy{Min: itoa(a.I(1)), Max: itoa(a.I(2)),
+			Offset: int64(a.N(3) * a.N(4)), Count: int64(a.N(4))}).Result()
+	case "ZRevRangeCtx":
+		val, err = r.ZRevRange(ctx, a.S(0), a.I(1), a.I(2)).Result()
+	case "ZRevRangeByScoreWithScoresCtx":
+		val, err = r.ZRevRangeByScoreWithScores(ctx, a.S(0), &red.ZRangeBy{Min: itoa(a.I(1)), Max: itoa(a.I(2))}).Result()
+	case "ZRevRangeByScoreWithScoresAndLimitCtx":
+		val, err = r.ZRevRangeByScoreWithScores(ctx, a.S(0), &red.ZRangeBy{Min: itoa(a.I(1)), Max: itoa(a.I(2)),
+			Offset: int64(a.N(3) * a.N(4)), Count: int64(a.N(4))}).Result()
+	case "ZRevRankCtx":
+		val, err = r.ZRevRank(ctx, a.S(0), a.S(1)).Result()
+	case "ZUnionStoreCtx":
+		val, err = r.ZUnionStore(ctx, a.S(0), &red.ZStore{Keys: a.SS(1), Aggregate: a.S(2)}).Result()
+	default:
+		ok = false
+	}
+	return
+}
+
+// C12GeoQuery builds the query argument [radius, unit] (sorted, with coordinates and distance).
+func C12GeoQuery(a C12Args, i int) *red.GeoRadiusQuery {
+	var raw []json.RawMessage
+	a.get(i, &raw)
+	q := &red.GeoRadiusQuery{WithCoord: true, WithDist: true, Sort: "ASC"}
+	json.Unmarshal(raw[0], &q.Radius)
+	json.Unmarshal(raw[1], &q.Unit)
+	return q
+}
+
+// C12DumpKey renders one key of a miniredis canonically: type, content, ttl.
+func C12DumpKey(s *miniredis.Miniredis, k string) string {
+	var b strings.Builder
+	t := s.Type(k)
+	b.WriteString(t + ":")
+	switch t {
+	case "string":
+		v, _ := s.Get(k)
+		b.WriteString(strconv.Quote(v))
+	case "hash":
+		fs, _ := s.HKeys(k)
+		sort.Strings(fs)
+		for _, f := range fs {
+			b.WriteString(strconv.Quote(f) + "=" + strconv.Quote(s.HGet(k, f)) + ",")
+		}
+	case "list":
+		l, _ := s.List(k)
+		for _, x := range l {
+			b.WriteString(strconv.Quote(x) + ",")
+		}
+	case "set":
+		ms, _ := s.Members(k)
+		sort.Strings(ms)
+		for _, x := range ms {
+			b.WriteString(strconv.Quote(x) + ",")
+		}
+	case "zset":
+		ms, _ := s.ZMembers(k)
+		for _, x := range ms {
+			sc, _ := s.ZScore(k, x)
+			b.WriteString(strconv.Quote(x) + "=" + strconv.FormatFloat(sc, 'f', -1, 64) + ",")
+		}
+	case "hll":
+		n, _ := s.PfCount(k)
+		b.WriteString(strconv.Itoa(n))
+	default:
+		b.WriteString("?")
+	}
+	b.WriteString(";ttl=" + strconv.FormatInt(int64(s.TTL(k)), 10))
+	return b.String()
+}
+
+// C12Dump renders the union of the keyspaces of the given servers, sorted by key (a key held by two
+// servers appears twice).
+func C12Dump(servers ...*miniredis.Miniredis) [][2]string {
+	out := [][2]string{}
+	for _, s := range servers {
+		for _, k := range s.Keys() {
+			out = append(out, [2]string{k, C12DumpKey(s, k)})
+		}
+	}
+	sort.Slice(out, func(i, j int) bool {
+		if out[i][0] != out[j][0] {
+			return out[i][0] < out[j][0]
+		}
+		return out[i][1] < out[j][1]
+	})
+	return out
+}
+
+// C12Canon canonicalises replies whose element order is unspecified (sets, hash fields, key lists).
+func C12Canon(m string, v any) any {
+	switch m {
+	case "SDiffCtx", "SInterCtx", "SUnionCtx", "SMembersCtx", "SRandMemberCtx", "HKeysCtx", "HValsCtx", "KeysCtx":
+		if ss, ok := v.([]string); ok {
+			out := append([]string{}, ss...)
+			sort.Strings(out)
+			return out
+		}
+	case "ScanCtx", "SScanCtx", "HScanCtx":
+		if l, ok := v.([]any); ok && len(l) == 2 {
+			if ss, ok := l[0].([]string); ok {
+				out := append([]string{}, ss...)
+				sort.Strings(out)
+				return []any{out, l[1]}
+			}
+		}
+	}
+	return v
+}
